@@ -59,6 +59,8 @@ def boundary_values(extra=()):
             for m in (1, 2, 3):
                 q = -((-m * 2**64) // c)
                 derived.add(q); derived.add(q + 1); derived.add(q - 1)
+    for k in range(16, 64):              # a power of two plus / minus one whole unit of the 16 fraction bits
+        for d in (65535, 65536, 65537): derived.add((1 << k) + d); derived.add((1 << k) - d)
     for k in (31, 32, 33, 46, 47, 48, 62, 63, 64, 79, 80):
         r = math.isqrt(2**k)
         for d in (-2, -1, 0, 1, 2): derived.add(r + d)
@@ -118,6 +120,35 @@ def prod_boundary_pairs(rng, n):
             if finite(q): out.append((a, q))
     return out
 
+def exact_product_pairs(targets=(2**63 - 1, 2**63, 2**62, 2**64 - 1, 2**79 - 65536, (2**63 - 2) * 65536, 2**47 * 65536 - 1)):
+    """operand pairs whose exact product IS a limit (neighbours are reached by the quotient constructions): all
+    divisor pairs of each target that trial division up to 10^6 can find"""
+    out = []
+    for t in targets:
+        n, fs, p = t, [], 2
+        while p * p <= n and p < 10**6:
+            while n % p == 0: fs.append(p); n //= p
+            p += 1 if p == 2 else 2
+        if n > 1: fs.append(n)
+        divs = {1}
+        for f in fs: divs |= {d * f for d in divs}
+        for d in sorted(divs):
+            q = t // d
+            if d <= q and d < 2**63 and q < 2**63: out.append((d, q))
+    return out
+
+def period_limit_probes(period, lo=-320, hi=320):
+    """arguments just below / above the multiples of `period` that sit next to a power of two (where a fast path of a
+    range reduction ends): m*period + j for the two multiples around each 2^k, k = 20..62, and every j in [lo, hi]"""
+    out = []
+    for k in range(20, 63):
+        m0 = (1 << k) // period
+        for m_ in (m0, m0 + 1):
+            for j in range(lo, hi + 1):
+                x = m_ * period + j
+                if 0 < x < 2**62: out.append(x)
+    return out
+
 def int_type_range(t):
     bits = int(t[1:]); 
     if t[0] == "i": return -(1 << (bits - 1)), (1 << (bits - 1)) - 1
@@ -134,7 +165,10 @@ for _a, _b in TYPE_ALIAS.items(): ALIAS_OF.setdefault(_b, []).append(_a)
 RE1 = {"neg", "abs", "isnan", "ceil", "floor", "sin", "cos", "tan", "atan"}
 RE2 = {"add", "sub", "mul", "div", "lt", "le", "gt", "ge", "eq", "ne", "atan2"}
 SELF = {"add": "addeq_self", "sub": "subeq_self", "mul": "muleq_self", "div": "diveq_self"}
-def reuse_lines(lines, rng, frac=0.04, cap=6000):
+LITV = [0, 1, 65536, 131071, 131072, 196608, 327680, 458752, 6488064, 809041920, 40001, 40002, 60000, -60000, -65536, 32768, -32768, 51472,
+        102944, 205887, 4294967296, 1099511693312, 268435456, -131072]
+LIT = {0, 1, 2, 3, 8, 10, 15, 16, 17, 31, 32, 33, 47, 48, 62, 63, 100, 180, 256, 65536}
+def reuse_lines(lines, rng, frac=0.04, cap=14000):
     """call patterns: the same objects used twice with a store in between (re_<op>), compound assignment with the
     object itself as right operand (<op>eq_self), integral conversions of one variable before and after a change"""
     by_fn = {}
@@ -152,11 +186,61 @@ def reuse_lines(lines, rng, frac=0.04, cap=6000):
         if tag == "" and fn in SELF:
             for l in rng.sample(ls, min(len(ls), 200)):
                 for x in l.split()[1:]: out.append("%s %s" % (SELF[fn], x))
+        # the second operand written as a literal in the harness (a fast path keyed on __builtin_constant_p exists only there)
+        if tag == "" and fn in ("shl", "shr"):
+            cand = [l for l in ls if int(l.split()[2]) in LIT and int(l.split()[2]) <= 63]
+            for l in rng.sample(cand, min(len(cand), 1500)): out.append("%s_lit %s" % (fn, " ".join(l.split()[1:])))
+        if fn in ("mul_s", "div_s") and tag == "i32":
+            cand = [l for l in ls if int(l.split()[2]) in LIT]
+            for l in rng.sample(cand, min(len(cand), 600)): out.append("%s_lit %s" % (fn[:3], " ".join(l.split()[1:])))
+            for l in rng.sample(ls, min(len(ls), 300)): out.append("%s_lit %s %d" % (fn[:3], l.split()[1], rng.choice(sorted(LIT))))
+        # a table function called twice in a row, the second argument a truncated copy of the first
+        if tag == "" and fn in ("sin_aprox", "cos_aprox"):
+            big = [int(l.split()[1]) for l in ls if abs(int(l.split()[1])) > 65535]
+            for d in rng.sample(big, min(len(big), 300)) + [rng.randrange(-2**31, 2**31) for _ in range(300)]:
+                for b in (d & 0xffff, d & 0xff, d & 0xfff, (d & 0xffff) - 65536 if d & 0x8000 else d & 0x7fff, d % 360, d + 65536 if d + 65536 < 2**31 else d - 65536):
+                    for f in ("re_sin_aprox", "re_cos_aprox", "re_sincos_aprox", "re_cossin_aprox"): out.append("%s %d %d" % (f, d, b))
+        # the same call with a literal argument (constant folding / __builtin_constant_p dispatch)
+        if fn in ("sin", "cos", "tan", "atan", "ceil", "floor", "abs", "neg") and tag == "":
+            for v in LITV: out.append("lit_%s %d" % (fn, v)); out.append("%s %d" % (fn, v))
+        if fn in ("sqrt", "asin", "acos") and tag == "dflt":
+            for v in LITV: out.append("lit_%s:dflt %d" % (fn, v)); out.append("%s:dflt %d" % (fn, v))
+        if fn == "hypot" and tag == "dflt":
+            for v in LITV: out.append("lit_hypot1:dflt %d" % v); out.append("hypot:dflt %d 65536" % v)
         if fn in ("to_fixed", "from_fixed") and tag:
             k = min(len(ls), 60)
             for l in rng.sample(ls, k):
                 o = rng.choice(ls)
                 out.append("re_%s:%s %s %s" % (fn, tag, o.split()[1], l.split()[1]))
+    return out[:cap]
+
+# two-operand entry points without preconditions on the operands (the sign-aware call sites add_pp … are excluded)
+REL_OK = {"add", "sub", "mul", "div", "addeq", "subeq", "muleq", "diveq", "add_fn", "sub_fn", "mul_fn", "div_fn", "add_ool", "sub_ool",
+          "lt", "le", "gt", "ge", "eq", "ne", "atan2", "band", "hypot_aprox",
+          "mul_s", "rmul_s", "muleq_s", "div_s", "diveq_s", "add_i", "radd_i", "addeq_i", "sub_i", "rsub_i", "subeq_i", "rdiv_i"}
+def relation_lines(lines, rng, cap=9000):
+    """operand pairs tied by an arithmetic relation that no single-operand list produces: for a sample of the
+    two-operand lines, the first operand is replaced by a function of the second (equal, opposite, off by one, scaled
+    by 2^16 either way, complement) and vice versa"""
+    by_fn = {}
+    for l in lines:
+        p = l.split()
+        if len(p) == 3 and not p[0].startswith(("re_", "lit_")): by_fn.setdefault(p[0], []).append(p)
+    out = []
+    def rel(v):
+        return [v, -v, v + 1, v - 1, -v + 1, -v - 1, v * 65536, -v * 65536, v // 65536, -(v // 65536), ~v, v ^ 0x1ffffffff, v + (1 << 32), v - (1 << 32), 2 * v, v // 2]
+    for h, ps in by_fn.items():
+        fn, _, tag = h.partition(":")
+        if tag in ("f32", "f64", "dflt") or fn not in REL_OK: continue
+        k = min(len(ps), max(8, cap // max(1, 40 * len(by_fn))))
+        for p in rng.sample(ps, k):
+            a, b = int(p[1]), int(p[2])
+            lo, hi = (int_type_range(TYPE_ALIAS.get(tag, tag)) if tag and (TYPE_ALIAS.get(tag, tag) in INT_TYPES) else (-NANP, NANP))
+            for a2 in rel(b):
+                if abs(a2) <= NANP: out.append("%s %d %d" % (h, a2, b))
+            for b2 in rel(a):
+                if lo <= b2 <= hi and abs(b2) <= 2**64: out.append("%s %d %d" % (h, a, b2))
+    rng.shuffle(out)
     return out[:cap]
 
 def alias_lines(lines, rng, frac=0.34):
